@@ -126,11 +126,11 @@ func tBool(b bool) *TLV {
 	}
 	return &TLV{Cls: clsUniversal, Tag: 1, Val: []byte{v}}
 }
-func tWrap(kids ...*TLV) *TLV { return &TLV{Cls: clsUniversal, Tag: 4, Wrap: true, Kids: kids} }
-func tCtxPrim(tag int, v []byte) *TLV   { return &TLV{Cls: clsCtx, Tag: tag, Val: v} }
-func tCtxCons(tag int, k ...*TLV) *TLV  { return &TLV{Cls: clsCtx, Cons: true, Tag: tag, Kids: k} }
-func tApp(tag int, k ...*TLV) *TLV      { return &TLV{Cls: clsApp, Cons: true, Tag: tag, Kids: k} }
-func tAppPrim(tag int, v []byte) *TLV   { return &TLV{Cls: clsApp, Tag: tag, Val: v} }
+func tWrap(kids ...*TLV) *TLV          { return &TLV{Cls: clsUniversal, Tag: 4, Wrap: true, Kids: kids} }
+func tCtxPrim(tag int, v []byte) *TLV  { return &TLV{Cls: clsCtx, Tag: tag, Val: v} }
+func tCtxCons(tag int, k ...*TLV) *TLV { return &TLV{Cls: clsCtx, Cons: true, Tag: tag, Kids: k} }
+func tApp(tag int, k ...*TLV) *TLV     { return &TLV{Cls: clsApp, Cons: true, Tag: tag, Kids: k} }
+func tAppPrim(tag int, v []byte) *TLV  { return &TLV{Cls: clsApp, Tag: tag, Val: v} }
 func tRaw(cls int, cons bool, tag int, v []byte) *TLV {
 	return &TLV{Cls: cls, Cons: cons, Tag: tag, Val: v}
 }
